@@ -1201,7 +1201,10 @@ func (q *cseq) build(forceZero bool) (raw []byte, class string, terminal bool) {
 		if what == "" {
 			bad, what = q.newEntry(false), "new"
 		}
-		switch rng.Intn(6) {
+		switch rng.Intn(7) {
+		case 6: // the algebraic twin (r, N-s) of the genuine signature
+			bad = bad.Signed(G.Priv)
+			bad.Sig = refenc.TwinSig(bad.Sig)
 		case 0:
 			rng.Read(bad.Sig[:])
 		case 1:
@@ -1229,7 +1232,14 @@ func (q *cseq) build(forceZero bool) (raw []byte, class string, terminal bool) {
 		return finish(), "list_badsig", false
 	case w < 68: // reply not from the contacted server / not fresh
 		rep.Servers = append(rep.Servers, q.newEntry(true).Signed(G.Priv))
-		switch rng.Intn(4) {
+		switch rng.Intn(5) {
+		case 4: // the contacted server's signature replaced by its algebraic twin
+			full := finish()
+			var sig [64]byte
+			copy(sig[:], full[len(full)-64:])
+			sig = refenc.TwinSig(sig)
+			copy(full[len(full)-64:], sig[:])
+			return full, "list_unauthentic", false
 		case 0:
 			signer = q.foreign.Priv
 		case 1:
@@ -1260,7 +1270,9 @@ func (q *cseq) build(forceZero bool) (raw []byte, class string, terminal bool) {
 	case w < 84: // outer signature missing or not the current GCA's
 		rep.NewGCA, rep.NewID = Gn.Pub, uint32(rng.Intn(1<<31))
 		newServers(rng.Intn(5), Gn, rng.Intn(2) == 0)
-		switch rng.Intn(5) {
+		switch rng.Intn(6) {
+		case 5:
+			rep.MigSig = refenc.TwinSig(order().Signed(G.Priv).Sig)
 		case 0:
 			rep.MigSig = order().Signed(Gn.Priv).Sig
 		case 1:
